@@ -69,6 +69,93 @@ def MutexEvent_Wait : String :=
 def CallCallback_Impl : String :=
   "Impl() { DownCast((*this)).Sub(1); return Noop() }"
 
+def WaitIterator : String :=
+  "WaitIterator(timeout, it, count) { decl StaticAssertDecl; var kShared = is_same_v; if ((count == 0)) { return true }; if ((count == 1)) { return WaitCore(timeout, it.GetHandle()) }; var range = lambda{ var wait_count = 0; var range_it = it; for (var i = 0; (i != count); (++i)) { (wait_count += cast(func(range_it.GetHandle()))); (++range_it) }; return wait_count }; decl TypeAliasDecl; decl TypeAliasDecl; var event = init((count + 1)); return WaitRange(event, timeout, range, count) }"
+
+def OneCounter_Sub : String :=
+  "Sub(_) { Delete((*this)) }"
+
+def OneCounter_SubEqual : String :=
+  "SubEqual(_) { return false }"
+
+def SetDeleter_Delete : String :=
+  "Delete(event) { event.Set() }"
+
+def MutexEvent_Make : String :=
+  "Make() { return init(_m) }"
+
+def MutexEvent_WaitTimed : String :=
+  "Wait(token, timeout_duration) { return _cv.wait_for(token, timeout_duration, lambda{ return _is_ready }) } || Wait(token, timeout_time) { return _cv.wait_until(token, timeout_time, lambda{ return _is_ready }) }"
+
+def Wait_variadic_iterator : String :=
+  "Wait(fs) { WaitCore(cast(init()), pack(fs.GetHandle())) } || Wait(begin, end) { WaitIterator(cast(init()), begin, cast((end - begin))) } || Wait(begin, count) { WaitIterator(cast(init()), begin, count) }"
+
+def WaitFor_variadic_iterator : String :=
+  "WaitFor(timeout_duration, fs) { return WaitCore(timeout_duration, pack(fs.GetHandle())) } || WaitFor(timeout_duration, begin, end) { return WaitIterator(timeout_duration, begin, cast((end - begin))) } || WaitFor(timeout_duration, begin, count) { return WaitIterator(timeout_duration, begin, count) }"
+
+def WaitUntil_variadic_iterator : String :=
+  "WaitUntil(timeout_time, fs) { return WaitCore(timeout_time, pack(fs.GetHandle())) } || WaitUntil(timeout_time, begin, end) { return WaitIterator(timeout_time, begin, cast((end - begin))) } || WaitUntil(timeout_time, begin, count) { return WaitIterator(timeout_time, begin, count) }"
+
+def OneShotEvent_SetImpl : String :=
+  "SetImpl(self, value) { var head = self.exchange(value, acq_rel); var job = cast(head); while ((job != nullptr)) { var next = cast(job.next); job.Call(); (job = next) } }"
+
+def OneShotEvent_TryAdd : String :=
+  "TryAdd(job) { var head = _head.load(acq); var node = cast((&job)); while ((head != kAllDone)) { (job.next = cast(head)); if (_head.compare_exchange_weak(head, node, rel, acq)) { return true } }; return false }"
+
+def OneShotEvent_Ready : String :=
+  "Ready() { return (_head.load(acq) == kAllDone) }"
+
+def OneShotEvent_Wait : String :=
+  "Wait() { var waiter = init(); if (TryAdd(waiter)) { var token = waiter.Make(); waiter.Wait(token) } }"
+
+def OneShotEvent_Set : String :=
+  "Set() { SetImpl(_head, kAllDone) }"
+
+def OneShotEvent_TimedWait : String :=
+  "TimedWait(timeout) { var waiter = MakeShared(2); if (TryAdd(operator*(waiter))) { var token = operator->(waiter).Make(); return waiter->Wait(token, timeout) }; delete(waiter.Release()); return true }"
+
+def OneShotEvent_ExtendedAwaiter_Call : String :=
+  "Call() { operator->(._core._executor).Submit((*._core)) }"
+
+def OneShotEvent_Waiter_Call : String :=
+  "Call() { Set() }"
+
+def OneShotEvent_TimedWaiter_Call : String :=
+  "Call() { Set(); DecRef() }"
+
+def OneShotEvent_await_ready : String :=
+  "await_ready() { return _event.Ready() }"
+
+def OneShotEvent_OnAwaiter_await_ready : String :=
+  "await_ready() { return false }"
+
+def OneShotEvent_await_suspend : String :=
+  "await_suspend(handle) { return _event.TryAdd(handle.promise()) } || await_suspend(handle) { (._core = (&handle.promise())); return _event.TryAdd((*this)) } || await_suspend(handle) { var core = handle.promise(); (core._executor = ._executor); (._core = (&core)); if ((!_event.TryAdd((*this)))) { Call() } }"
+
+def WaitGroup_Add : String :=
+  "Add(count) { _event.Add(count) }"
+
+def WaitGroup_Done : String :=
+  "Done(count) { _event.Sub(count) }"
+
+def WaitGroup_Wait : String :=
+  "Wait() { _event.Wait() }"
+
+def WaitGroup_WaitFor : String :=
+  "WaitFor(timeout_duration) { return _event.WaitFor(timeout_duration) }"
+
+def WaitGroup_InsertRange : String :=
+  "InsertRange(range, count) { ifc (NeedAdd) { Add(count) }; var wait_count = range(lambda{ var handle = init(core); ifc (NeedMove) { if (handle.SetCallback(_event.GetDrop())) { return true }; core.DecRef(); return false } else { return handle.SetCallback(_event.GetCall()) } }); if (operator!=(count, wait_count)) { Done((count - wait_count)) } }"
+
+def WaitGroup_InsertCore : String :=
+  "InsertCore(cores) { decl StaticAssertDecl; decl StaticAssertDecl; var range = lambda{ return fold(cast(func(cores))) }; InsertRange<NeedMove,NeedAdd>(range, sizeof...) }"
+
+def WaitGroup_InsertIt : String :=
+  "InsertIt(it, count) { decl StaticAssertDecl; if ((count == 0)) { return  }; var range = lambda{ var wait_count = 0; for (var i = 0; (i != count); (++i)) { ifc (NeedMove) { (wait_count += cast(func((*it.GetCore().Release())))) } else { (wait_count += cast(func((*it.GetCore())))) }; (++it) }; return wait_count }; InsertRange<NeedMove,NeedAdd>(range, count) }"
+
+def DropCallback_Impl : String :=
+  "Impl(caller) { caller.DecRef(); DownCast((*this)).Sub(1); return Noop() }"
+
 def Strand_Submit : String :=
   "Submit(job) { var expected = _jobs.load(rlx); do { (job.next = ((expected == Mark()) ? nullptr : expected)) } while ((!_jobs.compare_exchange_weak(expected, (&job), acq_rel, rlx))); if ((expected == Mark())) { cast((*this)).IncRef(); operator->(_executor).Submit((*this)) } }"
 
@@ -836,9 +923,6 @@ def MakeUnique : String :=
 
 def MakeShared : String :=
   "MakeShared(n, args) { return init(init(cast(init()), new(init(n, pack(forward(args)))))) }"
-
-def OneCounter_Sub : String :=
-  "Sub(_) { Delete((*this)) }"
 
 def SharedCore_Retire : String :=
   "Retire() { var result = (operator==(GetRef(), 1) ? move(Get()) : as_const(Get())); DecRef(); return result }"
